@@ -103,6 +103,103 @@ fn event(n: usize, t: u64, rng: &mut impl Rng, reps: usize) -> Option<Value> {
     Some(json!({"ev": "batch", "n": n, "t": t, "enc": enc, "dec": dec, "pairs": pairs, "rot": rot, "coef": coef}))
 }
 
+fn negacyclic_mul(a: &[u64], b: &[u64], t: u64) -> Vec<u64> {
+    let n = a.len();
+    let mut out = vec![0u64; n];
+    for i in 0..n {
+        for j in 0..n {
+            let p = (a[i] as u128 * b[j] as u128 % t as u128) as u64;
+            let k = (i + j) % n;
+            if i + j >= n {
+                out[k] = ((out[k] as u128 + (t - p) as u128) % t as u128) as u64;
+            } else {
+                out[k] = ((out[k] as u128 + p as u128) % t as u128) as u64;
+            }
+        }
+    }
+    out
+}
+
+/// plain moduli of 20..60 bits: encode/decode inverse, decode a ring homomorphism (sums and negacyclic products formed here in
+/// u128, independent of the library), rotations permute the slots - judged by TLC on exact integers (BigNat)
+fn big_event(n: usize, bits: usize, rng: &mut impl Rng, reps: usize) -> Option<Value> {
+    let t = guarded(|| PlainModulus::batching(n, bits).value()).ok()?;
+    let parms = EncryptionParameters::new(SchemeType::BFV)
+        .set_poly_modulus_degree(n)
+        // (a 60-bit batching prime would coincide with a 60-bit coefficient prime)
+        .set_coeff_modulus(&CoeffModulus::create(n, if bits >= 59 { vec![58, 57, 58] } else { vec![60, 60, 60] }))
+        .set_plain_modulus_u64(t);
+    let ctx = HeContext::new(parms, true, SecurityLevel::None);
+    if !ctx.parameters_set() {
+        return None;
+    }
+    let be = guarded(|| BatchEncoder::new(ctx.clone())).ok()?;
+    let ev = Evaluator::new(ctx.clone());
+    let kg = KeyGenerator::new(ctx.clone());
+    let full = |p: &Plaintext| -> Vec<u64> {
+        let mut v = p.data().clone();
+        v.resize(n, 0);
+        v
+    };
+    let from_poly = |c: &[u64]| -> Plaintext {
+        let mut p = Plaintext::new();
+        p.resize(n);
+        p.data_mut()[..n].copy_from_slice(c);
+        p
+    };
+    let mut vecs: Vec<Vec<u64>> = vec![];
+    for i in (0..n).step_by(if n <= 16 { 1 } else { n / 8 }) {
+        let mut v = vec![0u64; n];
+        v[i] = if i % 2 == 0 { 1 } else { t - 1 };
+        vecs.push(v);
+    }
+    vecs.push(vec![t - 1; n]);
+    vecs.push(vec![t / 2 + 1]);
+    for _ in 0..reps {
+        vecs.push((0..n).map(|_| rng.gen_range(0..t)).collect());
+    }
+    let mut rt = vec![];
+    let mut polys: Vec<(Vec<u64>, Vec<u64>)> = vec![];
+    for v in &vecs {
+        let mut padded = v.clone();
+        padded.resize(n, 0);
+        match guarded(|| be.encode_new(v)) {
+            Ok(p) => {
+                let d = guarded(|| be.decode_new(&p)).unwrap_or_else(|_| vec![t; n]);
+                rt.push(json!({"v": padded, "poly": full(&p), "dec": d}));
+                polys.push((padded, full(&p)));
+            }
+            Err(_) => rt.push(json!({"v": padded, "poly": vec![t; n], "dec": vec![t; n]})),
+        }
+    }
+    let mut pairs = vec![];
+    for k in 0..(4 + reps) {
+        let (ua, pa) = &polys[(k * 3 + 1) % polys.len()];
+        let (ub, pb) = &polys[rng.gen_range(0..polys.len())];
+        let prod = negacyclic_mul(pa, pb, t);
+        let sum: Vec<u64> = (0..n).map(|i| ((pa[i] as u128 + pb[i] as u128) % t as u128) as u64).collect();
+        let dp = guarded(|| be.decode_new(&from_poly(&prod))).unwrap_or_else(|_| vec![t; n]);
+        let ds = guarded(|| be.decode_new(&from_poly(&sum))).unwrap_or_else(|_| vec![t; n]);
+        pairs.push(json!({"a": ua, "b": ub, "prod": dp, "sum": ds}));
+    }
+    let mut rot = vec![];
+    let half = n as isize / 2;
+    let steps: Vec<isize> = if n <= 16 { ((-(half - 1))..half).collect() } else { vec![-(half - 1), -1, 0, 1, 3, half - 1] };
+    for s in steps {
+        let elt = guarded(|| {
+            let gk = kg.create_galois_keys_from_steps(&[s], false);
+            (0..n).map(|i| 2 * i + 1).find(|g| gk.has_key(*g))
+        });
+        if let Ok(Some(g)) = elt {
+            let v: Vec<u64> = (0..n).map(|_| rng.gen_range(0..t)).collect();
+            let p = be.encode_new(&v);
+            let out = guarded(|| be.decode_new(&ev.apply_galois_plain_new(&p, g))).unwrap_or_else(|_| vec![t; n]);
+            rot.push(json!({"s": s, "elt": g, "inp": v, "out": out}));
+        }
+    }
+    Some(json!({"ev": "batch_big", "n": n, "t": t, "rt": rt, "pairs": pairs, "rot": rot}))
+}
+
 pub fn main(args: &[String]) {
     silence_panics();
     let quick = args[0] == "quick";
@@ -127,6 +224,17 @@ pub fn main(args: &[String]) {
             if let Some(e) = event(n, *t, &mut rng, if quick { 2 } else { 6 }) {
                 println!("{}", e);
             }
+        }
+    }
+    // plain moduli beyond native TLC integers
+    let big: Vec<(usize, usize)> = if quick {
+        vec![(4, 33), (8, 20), (8, 40), (8, 60), (16, 50), (64, 60)]
+    } else {
+        vec![(2, 20), (4, 33), (8, 20), (8, 32), (8, 40), (8, 50), (8, 60), (16, 33), (16, 50), (32, 60), (64, 40), (64, 60), (256, 60), (1024, 30), (1024, 60)]
+    };
+    for (n, bits) in big {
+        if let Some(e) = big_event(n, bits, &mut rng, if quick { 2 } else { 5 }) {
+            println!("{}", e);
         }
     }
 }
